@@ -538,7 +538,7 @@ def run_family(res, prop, prop_mod, cases, dcases=None, spec_on_streams=True, ru
         raise C.Fail("harness build failed (does /repo still compile with -tags verif?):\n" + out[-3000:])
     cases = load_corpus(prop) + cases
     dcases = dcases or []
-    inputs = [{"op": "read", "chunks": c["chunks"], "err": c["err"], "cancel": c["cancel"]} for c in cases]
+    inputs = [{"op": "read", "chunks": c["chunks"], "err": c["err"], "cancel": c["cancel"], "greedy": bool(c.get("greedy"))} for c in cases]
     inputs += [{"op": "detect", "b": d["b"], "more": d["more"]} for d in dcases]
     outs = run_real(prop, inputs)
     routs, douts = outs[:len(cases)], outs[len(cases):]
